@@ -13,6 +13,9 @@ inductive Op where
       the task takes turns until one of them handles a control message, the send lands right after that turn
       (if the task goes idle first, nothing is sent) -/
   | inject (p : Prio) (ctls : List Ctl) (await : Bool)
+  /-- `Ticket::clone`: another task awaits a clone of the ticket that waiter `w` holds (tickets are `Clone`; "all clones
+      resolve at the same time"); the new waiter polls its clone once, at once -/
+  | clone (w : WaiterId)
   deriving Repr
 
 structure Sim where
@@ -43,6 +46,17 @@ def doSend (x : Sim) (p : Prio) (ctls : List Ctl) (await : Bool) : Sim :=
         pollWaiter { st with waiters := st.waiters ++ [{ id := w, done := last }] } w
       else st
     { x with st := st, nextFlag := nf, nextWaiter := w + 1 }
+
+/-- a further task awaits flag `f` (and `gone`): fresh waiter id, first poll at once -/
+def addWaiter (x : Sim) (f : FlagId) : Sim :=
+  { x with st := pollWaiter { x.st with waiters := x.st.waiters ++ [{ id := x.nextWaiter, done := f }] } x.nextWaiter,
+           nextWaiter := x.nextWaiter + 1 }
+
+/-- see `Op.clone`; a waiter without a record held a cancelled ticket (job already gone): its clone resolves at once too -/
+def cloneWaiter (x : Sim) (w : WaiterId) : Sim :=
+  match x.st.waiters.find? (·.id == w) with
+  | some wt => addWaiter x wt.done
+  | none => { x with st := x.st.emit (.ticket x.nextWaiter), nextWaiter := x.nextWaiter + 1 }
 
 /-- the idle task is suspended inside `recv`'s final select! -/
 def park (s : St) : St := if s.alive then { s with parked := true } else s
@@ -99,6 +113,7 @@ def stepOp (x : Sim) : Op → List Sim
   | .advance ms => (advanceAll 64 (x.st.now + ms) x.st).map (fun st => { x with st := st })
   | .dropHandles => [{ x with st := { x.st with closed := true } }]
   | .inject p cs aw => injectAll 50 x p cs aw
+  | .clone w => [cloneWaiter x w]
 
 def runOps (x : Sim) : List Op → List Sim
   | [] => [x]
